@@ -449,7 +449,7 @@ def shard_main(shard, nshards, tier, scale):
     one = st.one_of(valid_message_bytes(D, codes), valid_message_bytes(D, codes),
                     st.tuples(valid_message_bytes(D, codes), st.lists(st.integers(0, 1 << 30), min_size=1, max_size=4)).map(damaged))
     cstrat = st.tuples(st.lists(one, min_size=2, max_size=3), st.integers(0, 1 << 30), st.sampled_from([0.02, 0.08, 0.3]))
-    hyp.run_given(cstrat, lambda t: check_concurrent(t, rec), int((3000 if thorough else 200) * scale),
+    hyp.run_given(cstrat, lambda t: check_concurrent(t, rec), int((1000 if thorough else 200) * scale),
                   derive_seed(PID, "concurrent", shard), rec=rec)
     _sched.clear()
     signal.alarm(0)
